@@ -14,6 +14,7 @@ RULE = (
     "case = (model in {single-output, batch single-output, Kronecker multitask}, NaN pattern in {none, first, last, interior, random p=.2/.5, "
     "all-but-one, per-batch-element different, per-task different}, policy order (all orders of mask/fill [+ignore on clean data]), "
     "fast_pred_var, likelihood in {gauss, fixed}, seed); distinct = cell without seed; non-trivial iff >=1 observation is missing and >=1 observed"
+    "; pass 6: the policies together with linear means, fixed+learned noise, linear / KISS-GP / RFF kernels and iterative solves ('mask' only)"
 )
 REQUIRED = ["posterior_mean", "posterior_covar", "mll_unnormalised", "expected_log_prob", "log_marginal", "no_nan_leaves", "order_independent"]
 ASSUMPTIONS = [
